@@ -114,7 +114,7 @@ def rename_keeps_id(ctx):
     rem = [c for c in rb.calls(r'HashMap::<[^>]*>::remove$')]
     ok = len(ins) == 1 and len(rem) == 1
     if ok:
-        roots = copy_chain_sources(rb, ins[0].args[2], through_calls=IDENTITY_CALLS)
+        roots = copy_chain_sources(rb, ins[0].args[2], through_calls=(r'^std::ops::Try::branch$',) + tuple(IDENTITY_CALLS))
         ok = bool(roots) and all(r[0] == 'call' and r[1] is rem[0] and r[2][-2:] == ('@Some', '0') for r in roots)
         # key of remove = old name, key of insert = new name
         # rename_attribute(&mut self, old_name: &Name, new_name: Name): parameters 2 and 3
@@ -350,32 +350,44 @@ def combine_visits_every_dimension(ctx):
     c01.combine_visits_every_dimension(ctx)
 
 
-def seq_parity(F, body, op, depth=0):
-    """Walk a sequence value (an iterator, or a Vec / Dict collected from one) back to the collection it ultimately enumerates:
-    (root local, root path, reversed?, partial?) — `reversed` is the parity of the `rev()` adaptors met on the way, through
-    intermediate `collect()`s and clones."""
-    from ..trans import chain_source, CHAIN_FLAGS, base_of
-    rev = False
-    partial = False
-    cur = op
-    for _ in range(6):
-        src = chain_source(F, body, cur)
-        fl = set(CHAIN_FLAGS[0])
-        if src is None:
-            return None
-        rev ^= ('rev' in fl)
-        partial |= ('partial' in fl)
-        l, path = src
-        ds = [d for d in body.defs().get(l, []) if d.kind == 'call']
-        if body.is_param(l) or not ds or path:
-            return (l, tuple(path), rev, partial)
-        c = ds[0].call
-        if c.is_(r'^std::iter::Iterator::collect$', r'^std::clone::Clone::clone$', r'^std::iter::FromIterator::from_iter$',
-                 r'^std::borrow::ToOwned::to_owned$') and c.args:
-            cur = c.args[0]
-            continue
-        return (l, tuple(path), rev, partial)
-    return None
+ORDER_KEEPING = (r'^std::iter::Iterator::(map|filter|filter_map|take_while|skip_while|map_while|skip|take|inspect|cloned|copied|by_ref|peekable|'
+                 r'enumerate|fuse)$', r'^std::iter::IntoIterator::into_iter$', r'::(iter|iter_mut|into_iter|drain)$',
+                 r'^std::iter::Iterator::collect$', r'^std::clone::Clone::clone$', r'^std::iter::FromIterator::from_iter$',
+                 r'^std::borrow::ToOwned::to_owned$', r'::split_off$', r'^std::convert::(Into::into|From::from)$')
+
+
+def seq_pieces(F, body, op, rev=False, depth=0):
+    """The sequence held by an iterator / Vec / Dict value, as the ordered list of the pieces it is made of:
+    ('root', local, path, reversed?) for a stretch of a collection that was not built here (a parameter, a field of self),
+    ('single', operand) for `once(x)`, ('unknown', call name).  `reversed` is the parity of the rev() adaptors between that
+    collection and the value; `a.chain(b)` concatenates (in the other order under an odd number of rev())."""
+    from ..trans import base_of
+    if depth > 14 or not is_place(op):
+        return [('unknown', 'depth')]
+    l, path, _s, _d = base_of(body, op)
+    if l is None:
+        return [('unknown', 'no base')]
+    ds = [d for d in body.defs().get(l, []) if d.kind == 'call']
+    if body.is_param(l) or not ds or path:
+        return [('root', l, tuple(path), rev)]
+    c = ds[0].call
+    if not c.args:
+        return [('unknown', c.name)]
+    if c.is_(r'^std::iter::Iterator::rev$'):
+        return seq_pieces(F, body, c.args[0], not rev, depth + 1)
+    if c.is_(r'^std::iter::Iterator::chain$') and len(c.args) > 1:
+        a = seq_pieces(F, body, c.args[0], rev, depth + 1)
+        b = seq_pieces(F, body, c.args[1], rev, depth + 1)
+        return (b + a) if rev else (a + b)
+    if c.is_(r'^std::iter::once$', r'^std::iter::once_with$'):
+        return [('single', c.args[0])]
+    if c.is_(*ORDER_KEEPING):
+        cal = lib.local_callee(F, c)
+        if cal is not None and not c.is_(r'^std::'):
+            # crate-local iter() / into_iter(): the receiver is the collection, enumerated in its own order
+            return seq_pieces(F, body, c.args[0], rev, depth + 1)
+        return seq_pieces(F, body, c.args[0], rev, depth + 1)
+    return [('root', l, tuple(path), rev)]
 
 
 @rule('C03', 'add-keeps-rank-order')
@@ -383,43 +395,64 @@ def add_keeps_rank_order(ctx):
     """'A lower attribute never opens a higher one' across `add_attribute(.., after)`: the hierarchy is rebuilt as (attributes up
     to `after`) + the new attribute + (the attributes above), and every one of these pieces must enumerate the old hierarchy in
     its own order: on the way from the old dictionary to the new one, each piece goes through an even number of `rev()`s (the
-    upper piece is collected reversed and re-reversed when it is appended). The new attribute is inserted after the lower piece
-    is in place and before the upper piece is appended."""
+    upper piece is collected reversed and re-reversed when it is appended) — whether the pieces are inserted one after the other
+    or chained into one `collect()`. The new attribute goes in after a piece of the old hierarchy and before another."""
     F = ctx.F
     key = 'abe_policy::dimension::Dimension::add_attribute'
     body = F.fn(key)
     DICT = r'data_struct::dictionary::Dict'
-    feeds = []          # (body, block, what, parity info)
+    feeds = []          # (body, block, what, pieces, line)
     for fb in lib.family_ext(F, key):
         for c in fb.calls(r'^std::iter::Iterator::collect$', r'^std::iter::FromIterator::from_iter$'):
             if re.search(DICT, c.full) and c.args:
-                feeds.append((fb, c.b, 'collected into the new dictionary', seq_parity(F, fb, c.args[0]), c.ln))
+                feeds.append((fb, c.b, 'collected into the new dictionary', seq_pieces(F, fb, c.args[0]), c.ln))
         for c in fb.calls(r'dictionary::Dict::<K, V>::insert$'):
             if fb.kind == 'Closure':
                 for (pb, cc, _i) in lib.closure_consumers(F, fb):
                     if cc.is_(r'^std::iter::Iterator::') and cc.args and pb.key.startswith(key):
-                        feeds.append((pb, cc.b, 'inserted one by one (%s)' % cc.name.split('::')[-1], seq_parity(F, pb, cc.args[0]), c.ln))
+                        feeds.append((pb, cc.b, 'inserted one by one (%s)' % cc.name.split('::')[-1], seq_pieces(F, pb, cc.args[0]), c.ln))
             else:
                 for s in copy_chain_sources(fb, c.args[1], through_calls=(r'^std::ops::Try::branch$',) + tuple(IDENTITY_CALLS)):
                     if s[0] == 'call' and s[1].is_(r'^std::iter::Iterator::next$') and s[1].args:
-                        feeds.append((fb, c.b, 'inserted one by one (loop)', seq_parity(F, fb, s[1].args[0]), c.ln))
+                        feeds.append((fb, c.b, 'inserted one by one (loop)', seq_pieces(F, fb, s[1].args[0]), c.ln))
+
+    def from_self(fb, rl):
+        if fb.is_param(rl):
+            return fb is body and rl == 1
+        return any(s[0] == 'param' and s[1] == 1 and fb is body for s in
+                   lib.copy_chain_sources(fb, {'cp': {'l': rl, 'p': []}}, through_calls=(r'^std::clone::Clone::clone$',) + tuple(IDENTITY_CALLS)))
+
+    def is_new(fb, o):
+        sl = backward_slice(fb, [o], follow_mutarg=False)
+        return fb is body and 2 in sl.params
+
     n = 0
     main_feeds = []
-    for (fb, b, what, sp, ln) in feeds:
-        if sp is None:
+    placed = False
+    for (fb, b, what, pcs, ln) in feeds:
+        olds = []
+        kinds = []
+        for pc in pcs:
+            if pc[0] == 'root' and from_self(fb, pc[1]):
+                kinds.append('old')
+                olds.append(pc)
+            elif pc[0] == 'single' and is_new(fb, pc[1]):
+                kinds.append('new')
+            else:
+                kinds.append('?')
+        if not olds:
             continue
-        (rl, rpath, rev, partial) = sp
-        # only sequences that come from the old hierarchy (self)
-        roots = lib.copy_chain_sources(fb, {'cp': {'l': rl, 'p': []}}, through_calls=tuple(IDENTITY_CALLS)) if not fb.is_param(rl) else [('param', rl, ())]
-        if not any(s[0] == 'param' and s[1] == 1 for s in roots):
-            continue
-        n += 1
         if fb is body:
-            main_feeds.append((b, partial))
-        ctx.check(not rev, key, 'old attributes %s in their own order' % what,
-                  'Dimension::add_attribute puts a piece of the old hierarchy into the new one in REVERSE order (line %d: an odd '
-                  'number of rev() between the old dictionary and the new one): the ranks of those attributes are swapped, and a key '
-                  'for a middle rank no longer receives the lower ones' % ln, 'even number of rev()', fb.where(ln))
+            main_feeds.append(b)
+        for pc in olds:
+            n += 1
+            ctx.check(not pc[3], key, 'old attributes %s in their own order' % what,
+                      'Dimension::add_attribute puts a piece of the old hierarchy into the new one in REVERSE order (line %d: an odd '
+                      'number of rev() between the old dictionary and the new one): the ranks of those attributes are swapped, and a key '
+                      'for a middle rank no longer receives the lower ones' % ln, 'even number of rev()', fb.where(ln))
+        if 'new' in kinds:
+            i = kinds.index('new')
+            placed = placed or ('old' in kinds[:i] and 'old' in kinds[i + 1:])
     ctx.floor(n, 2, 'pieces of the old hierarchy carried into the new one by Dimension::add_attribute')
     # the new attribute goes in between
     news = []
@@ -427,14 +460,13 @@ def add_keeps_rank_order(ctx):
         if len(c.args) > 1 and any(s[0] == 'param' and s[1] == 2 for s in
                                    lib.copy_chain_sources(body, c.args[1], through_calls=tuple(IDENTITY_CALLS))):
             news.append(c)
-    ctx.floor(len(news), 1, 'insertion of the new attribute into the rebuilt hierarchy')
     for c in news:
-        before = [b for (b, _p) in main_feeds if body.block_dominates(b, c.b)]
-        after = [b for (b, _p) in main_feeds if body.block_dominates(c.b, b)]
-        ctx.check(bool(before) and bool(after), key, 'new attribute inserted between the lower and the upper piece',
-                  'the new attribute is not inserted between the attributes up to `after` and the ones above (pieces before: %d, '
-                  'after: %d): it does not get the rank that was asked for' % (len(before), len(after)), 'lower piece, new, upper piece',
-                  body.where(c.ln))
+        before = [b for b in main_feeds if body.block_dominates(b, c.b)]
+        after = [b for b in main_feeds if body.block_dominates(c.b, b)]
+        placed = placed or (bool(before) and bool(after))
+    ctx.check(placed, key, 'new attribute inserted between the lower and the upper piece',
+              'the new attribute is not put between the attributes up to `after` and the ones above: it does not get the rank that was '
+              'asked for', 'lower piece, new, upper piece', body.where())
 
 
 @rule('C03', 'hierarchy-order-on-the-wire')
